@@ -6,6 +6,8 @@ index.  The real serialize_value / Serializable.loadb run on ropes through the B
 """
 import itertools
 
+import os
+
 import z3
 
 import sx
@@ -427,5 +429,79 @@ R.add('L13.1', l131, lambda tier: [dict(batch=b, tier=tier) for b in range(NB)],
               'concatenated encodings decode one after another', 'a value inside the domain is never refused'],
       bounds='type trees of depth <= 2 (a selection of depth 3), container arity <= 2 (thorough 3); ints unbounded, '
              'str/bytes of any length, floats as uninterpreted tokens')
+
+
+# ------------------------------------------------------------------ L13.2 class hierarchies
+_HCOUNT = [0]
+
+
+def mk_hierarchy(S):
+    """three user message classes, two of them derived from the first (one adds a field, one does not).  Fresh names
+    per call: the registry refuses to register a name twice."""
+    _HCOUNT[0] += 1
+    tag = '%d_%d' % (os.getpid(), _HCOUNT[0])
+    ns = {}
+    src = ('class HEnt%(t)s(S):\n    x: int = 0\n    name: str = ""\n'
+           'class HPlayer%(t)s(HEnt%(t)s):\n    hp: int = 0\n'
+           'class HNpc%(t)s(HEnt%(t)s):\n    pass\n') % dict(t=tag)
+    exec(src, {'S': S}, ns)
+    return ns['HEnt' + tag], ns['HPlayer' + tag], ns['HNpc' + tag]
+
+
+def l132():
+    """a message class derived from another message class is still its own type: whatever the order in which the
+    classes are first used, an instance decodes to an instance of its own class with its own fields, alone, nested
+    in a list, and in a concatenated stream"""
+    Ent, Player, Npc = mk_hierarchy(Serializable)
+    classes = [Ent, Player, Npc]
+    perm = [(0, 1, 2), (0, 2, 1), (1, 0, 2), (1, 2, 0), (2, 0, 1), (2, 1, 0)][choose(6, 'first_use_order')]
+    vals = {}
+    for i in perm:
+        cls = classes[i]
+        v = cls()
+        v.x = symint('x%d' % i, -2 ** 63, 2 ** 63 - 1)
+        v.name = text.opaque('name%d' % i)
+        assume(text.sx_len(v.name) <= 50)
+        if cls is Player:
+            v.hp = symint('hp', -2 ** 63, 2 ** 63 - 1)
+        vals[i] = v
+        enc = v.dumpb()
+        try:
+            w = Serializable.loadb(enc)
+        except Exception as ex:
+            core.fail('decoding a produced encoding raised', error=type(ex).__name__, cls=cls.__name__[:7])
+        check(type(w) is cls, 'an instance decodes to an instance of its own class', cls=cls.__name__[:7])
+        # the wire format of a class is the fields the class itself declares (its _fields; the constructor refuses
+        # inherited names too): those are what is compared
+        if cls is Ent:
+            check(And(w.x == v.x, deq(v.name, w.name)), 'the fields a class declares are reproduced', cls=cls.__name__[:7])
+        if cls is Player:
+            check(w.hp == v.hp, 'the fields a class declares are reproduced', cls=cls.__name__[:7])
+    # nested and concatenated
+    stream = BytesIO()
+    lst = [vals[0], vals[1], vals[2]]
+    ser.serialize_value(stream, lst)
+    ser.serialize_value(stream, 7)
+    rd = BytesIO(stream.getvalue())
+    try:
+        back = Serializable.loadb(rd)
+        seven = Serializable.loadb(rd)
+    except Exception as ex:
+        core.fail('decoding a produced encoding raised', error=type(ex).__name__, cls='list')
+    check(len(back) == 3 and all(type(b) is type(a) for a, b in zip(lst, back)), 'instances nested in a list keep their classes')
+    check(seven == 7, 'the next value of a concatenated stream decodes')
+
+
+R.add('L13.2', l132, [{}], replay='GENERIC',
+      desc='message classes derived from another message class (adding a field / adding none), every order of first use: '
+           'decode(encode(v)) is an instance of v\'s own class with the fields that class declares; nested in a list; concatenated stream',
+      expect=['an instance decodes to an instance of its own class', 'instances nested in a list keep their classes'],
+      bounds='one base class with two subclasses, 6 orders of first use; field values symbolic')
+
+import sys as _sys  # noqa: E402
+from .common import generic_replay  # noqa: E402
+for _l in R.lemmas.values():
+    if _l.replay == 'GENERIC':
+        _l.replay = generic_replay(_l.func, [_sys.modules[__name__]])
 
 get_harness = R.get_harness
